@@ -508,6 +508,9 @@ class Interp(object):
         if getattr(fn, "__name__", None) == "providedBy" and hasattr(getattr(fn, "__self__", None), "implementedBy") \
                 and len(args) == 1 and isinstance(args[0], SObj) and isinstance(args[0].cls, type):
             return bool(fn.__self__.implementedBy(args[0].cls))     # zope.interface on a modelled instance
+        if getattr(fn, "__name__", None) == "providedBy" and hasattr(getattr(fn, "__self__", None), "implementedBy") \
+                and len(args) == 1 and not isinstance(args[0], (SObj, SStr, SBytes, SHash, SList, Opaque, z3.ExprRef)):
+            return bool(fn(args[0]))                                # zope.interface on a real python object
         if isinstance(fn, types.MethodType):
             # bound method of a real object: python-source methods are interpreted with the real object as self
             f0 = fn.__func__
